@@ -17,7 +17,7 @@ from .cstep import unchanged, apply_op
 PROPERTY = "C08"
 META = {
     "explanation": "explicit reachability over the access-mode alphabet {allow_write, enter, exit, exit-by-exception} (bounded depth) x one real mutator or reader call; file contents/geometry symbolic, unchanged-bytes proved by z3 (table bytes, every payload byte through a Skolem index, length)",
-    "bounds": {"quick": {"mode_event_sequences": "all well-formed sequences of length <= 3", "file": "N=2, one live block (events), symbolic contents", "operations": "8 mutators, 22 readers"},
+    "bounds": {"quick": {"mode_event_sequences": "all well-formed sequences of length <= 4", "file": "N=2, one live block (events), symbolic contents", "operations": "8 mutators, 22 readers"},
                "thorough": {"mode_event_sequences": "all well-formed sequences of length <= 5", "file": "N=2 with 1 live and N=3 with 2 live blocks", "operations": "8 mutators, 22 readers"}},
     "outside_bounds": ["longer mode-event sequences", "re-entrant nesting of the same object's context", "concurrent use from several threads"],
     "assumptions": ["SymFS handle accounting (opened/closed)", "decoders replaced by recorders (what is decoded is C01's subject)"],
@@ -180,11 +180,13 @@ def case(seq, op, N, live):
 def instances(tier):
     q = tier == "quick"
     out = []
-    seqs = sequences(3 if q else 5)
+    seqs = sequences(4 if q else 5)
     shapes = [(2, (16,))] + ([] if q else [(3, (16, 5))])
     for N, live in shapes:
         for seq in seqs:
             for op in MUTATORS + READERS:
+                if q and len(seq) >= 4 and op in READERS and op not in ("blocks", "len", "copy", "eq", "events", "nBytes"):
+                    continue
                 if not q and len(seq) >= 5 and op in READERS and op not in ("blocks", "len", "copy", "eq", "events"):
                     continue
                 inside, writable = expected_mode(seq)
